@@ -248,6 +248,8 @@ def run(check):
 
     # the embedded map must decode: the trailer's payload is the standard base64 of the final map
     check.guarded("TRAILER", _c10.rule_trailer)
+    # the map describes the text the printer produced: any later edit of that text shifts every position
+    check.guarded("TEXTEDIT", _c10.rule_textedit)
     from . import c16 as _c16
 
     check.guarded("COMPILER-SCOPE", _c16.rule_compiler_of_this_call)
